@@ -26,6 +26,9 @@ def evaluate(n, env, atom_of, free):
         return all(vals) if isinstance(n.op, ast.And) else any(vals)
     if isinstance(n, ast.UnaryOp) and isinstance(n.op, ast.Not):
         return not evaluate(n.operand, env, atom_of, free)
+    if isinstance(n, ast.IfExp):
+        return evaluate(n.body if evaluate(n.test, env, atom_of, free) else n.orelse,
+                        env, atom_of, free)
     if isinstance(n, ast.Constant) and isinstance(n.value, bool):
         return n.value
     a = atom_of(n)
